@@ -83,6 +83,20 @@ fn can_reuse_metrics(
     coeffs == Affine::IDENTITY.as_coeffs()
 }
 
+/// The most points a single glyph may have: maxp.maxPoints and the contour end
+/// points of a simple glyph are u16.
+const MAX_POINTS: usize = u16::MAX as usize;
+
+fn check_num_points(glyph_name: &GlyphName, num_points: usize) -> Result<(), Error> {
+    if num_points > MAX_POINTS {
+        return Err(Error::OutOfBounds {
+            what: format!("number of points of '{glyph_name}'"),
+            value: format!("{num_points}"),
+        });
+    }
+    Ok(())
+}
+
 fn create_component_ref_gid(
     gid: GlyphId16,
     transform: &Affine,
@@ -428,6 +442,7 @@ impl Work<Context, AnyWorkId, Error> for GlyphWork {
                     num_points += contour.len();
                     contour_ends.push(num_points - 1);
                 }
+                check_num_points(&self.glyph_name, num_points)?;
                 (
                     name,
                     point_seqs_for_simple_glyph(
@@ -934,6 +949,16 @@ mod tests {
         };
         let child = parent.clone();
         (parent, child)
+    }
+
+    #[test]
+    fn too_many_points_is_an_error() {
+        let name = GlyphName::new("a");
+        assert!(check_num_points(&name, 65535).is_ok());
+        assert!(matches!(
+            check_num_points(&name, 65536),
+            Err(Error::OutOfBounds { .. })
+        ));
     }
 
     #[test]
